@@ -1,30 +1,76 @@
-/* vector_vm: interprets operation lists against the real CgreenVector (src/vector.c).
-   Built with AddressSanitizer + UBSan: any out-of-bounds access aborts the process.
-   One case per line:  ops separated by ';':  a<v> (add v)  r<pos> (remove)  g<pos> (get)  s (size)
-   Output per case: results separated by ' ' (P = NULL/panic) */
+/* vector_vm: interprets operation lists against cgreen's real containers.
+   Built with AddressSanitizer + UBSan: any out-of-bounds access aborts the process (the
+   parent then sees which case was being run).  One case per line:
+     V <ops>   CgreenVector (src/vector.c); ops separated by ';':
+               a<v> (add v)  r<pos> (remove)  g<pos> (get)  s (size)
+               output: results separated by ' ' (P = NULL+panic, N = NULL without panic)
+     S <ops>   TestSuite entry array (src/suite.c): t<v> add_test_, s<v> add_suite_ (v = id);
+               output: size, then the ids in array order with their kind
+     C <ops>   breadcrumb (src/breadcrumb.c): p<v> push, o pop; output: current entry after
+               every op (- = NULL) */
 #include <cgreen/vector.h>
+#include <cgreen/suite.h>
+#include <cgreen/breadcrumb.h>
 #include <stdio.h>
 #include <stdlib.h>
 #include <string.h>
 #include <stdint.h>
 
 extern void panic_set_output_buffer(const char *buffer);
+static char panicbuf[2000];
+
+static void do_vector(char *ops) {
+    CgreenVector *v = create_cgreen_vector(NULL);
+    char *save;
+    for (char *op = strtok_r(ops, ";\n", &save); op; op = strtok_r(NULL, ";\n", &save)) {
+        if (op[0] == 'a') cgreen_vector_add(v, (void *)(intptr_t)atol(op + 1));
+        else if (op[0] == 'r' || op[0] == 'g') {
+            panicbuf[0] = 0;
+            void *x = op[0] == 'r' ? cgreen_vector_remove(v, atoi(op + 1)) : cgreen_vector_get(v, atoi(op + 1));
+            if (panicbuf[0]) printf("P "); else if (!x) printf("N "); else printf("%ld ", (long)(intptr_t)x);
+        } else if (op[0] == 's') printf("%d ", cgreen_vector_size(v));
+    }
+    destroy_cgreen_vector(v);
+}
+
+static void do_suite(char *ops) {
+    static char names[4096][12];
+    TestSuite *top = create_named_test_suite_("top", "vm.c", 1);
+    int n = 0; char *save;
+    for (char *op = strtok_r(ops, ";\n", &save); op && n < 4096; op = strtok_r(NULL, ";\n", &save)) {
+        snprintf(names[n], sizeof names[n], "%s", op + 1);
+        if (op[0] == 't') add_test_(top, names[n], (CgreenTest *)(intptr_t)(atol(op + 1)));
+        else add_suite_(top, names[n], create_named_test_suite_(names[n], "vm.c", 2));
+        n++;
+    }
+    printf("%d", top->size);
+    for (int i = 0; i < top->size; i++) printf(" %c%s", top->tests[i].type == test_function ? 't' : 's', top->tests[i].name);
+    for (int i = 0; i < top->size; i++)
+        if (top->tests[i].type == test_function && (intptr_t)top->tests[i].Runnable.test != atol(top->tests[i].name)) printf(" BADPTR%d", i);
+    destroy_test_suite(top);
+}
+
+static void do_crumb(char *ops) {
+    static char names[4096][12];
+    CgreenBreadcrumb *b = create_breadcrumb();
+    int n = 0; char *save;
+    for (char *op = strtok_r(ops, ";\n", &save); op && n < 4096; op = strtok_r(NULL, ";\n", &save)) {
+        if (op[0] == 'p') { snprintf(names[n], sizeof names[n], "%s", op + 1); push_breadcrumb(b, names[n]); n++; }
+        else pop_breadcrumb(b);
+        const char *c = get_current_from_breadcrumb(b);
+        printf("%s ", c ? c : "-");
+    }
+    destroy_breadcrumb(b);
+}
 
 int main(void) {
-    static char panicbuf[2000];
     panic_set_output_buffer(panicbuf);
     char *line = NULL; size_t cap = 0;
     while (getline(&line, &cap, stdin) > 0) {
-        CgreenVector *v = create_cgreen_vector(NULL);
-        char *save;
-        for (char *op = strtok_r(line, ";\n", &save); op; op = strtok_r(NULL, ";\n", &save)) {
-            if (op[0] == 'a') { cgreen_vector_add(v, (void *)(intptr_t)atol(op + 1)); }
-            else if (op[0] == 'r') { panicbuf[0] = 0; void *x = cgreen_vector_remove(v, atoi(op + 1)); if (panicbuf[0]) printf("P "); else printf("%ld ", (long)(intptr_t)x); }
-            else if (op[0] == 'g') { panicbuf[0] = 0; void *x = cgreen_vector_get(v, atoi(op + 1)); if (panicbuf[0]) printf("P "); else printf("%ld ", (long)(intptr_t)x); }
-            else if (op[0] == 's') printf("%d ", cgreen_vector_size(v));
-        }
+        if (line[0] == 'V') do_vector(line + 2);
+        else if (line[0] == 'S') do_suite(line + 2);
+        else if (line[0] == 'C') do_crumb(line + 2);
         printf("\n"); fflush(stdout);
-        destroy_cgreen_vector(v);
     }
     return 0;
 }
